@@ -1507,6 +1507,16 @@ private:
 	    return false;
 	  }
 
+	  // Every function in the table is on the call stack and its
+	  // fixpoint is still in progress. The exit of node may have been
+	  // computed from the pre-fixpoint exit of one of them even if
+	  // that function is not in the (static) WTO nesting of node: the
+	  // dynamic call order can enter a cycle through any of its
+	  // members.
+	  if (!func_fixpoint_table.empty()) {
+	    return false;
+	  }
+
 	  // If node is part of a WTO nesting then we need to check
 	  // all the nesting's elements have been stabilized.
 	  if (boost::optional<typename global_context_t::wto_cg_nesting_t> nesting_opt =
